@@ -222,6 +222,8 @@ def split_trace(path, nchunks, start_event='Call'):
         pat = start_event if '"' in start_event else ('"e":"%s"' % start_event)
         starts = [i for i, ln in enumerate(lines) if pat in ln]
     if not starts:
+        if any(ln.strip() for ln in lines):
+            raise HarnessError('trace %s has %d lines but no chunk start event %r' % (path, len(lines), start_event))
         return [], 0
     per = max(1, (len(starts) + nchunks - 1) // nchunks)
     chunks = []
